@@ -11,7 +11,7 @@ import sysconfig
 from abc import ABCMeta, abstractmethod
 from contextlib import contextmanager
 from types import CodeType
-from typing import Iterator, Optional
+from typing import Dict, Iterator, Optional, Tuple
 
 from monkeytype.db.base import CallTraceStore, CallTraceStoreLogger
 from monkeytype.db.sqlite import SQLiteStore
@@ -94,7 +94,29 @@ def _startswith(a: pathlib.Path, b: pathlib.Path) -> bool:
         return False
 
 
-@functools.lru_cache(maxsize=8192)
+def _cache_by_filename(code_filter: CodeFilter) -> CodeFilter:
+    """Cache the answers of default_code_filter.
+
+    The answer depends on code.co_filename and MONKEYTYPE_TRACE_MODULES only, so
+    those are the cache key. The code object itself cannot be: code objects
+    compare (and hash) equal whenever their contents are identical, whatever
+    their co_filename, so identical functions in two files would share one answer.
+    """
+    cache: Dict[Tuple[str, Optional[str]], bool] = {}
+
+    @functools.wraps(code_filter)
+    def cached(code: CodeType) -> bool:
+        key = (code.co_filename, os.environ.get("MONKEYTYPE_TRACE_MODULES"))
+        try:
+            return cache[key]
+        except KeyError:
+            return cache.setdefault(key, code_filter(code))
+
+    cached.cache_clear = cache.clear  # type: ignore[attr-defined]
+    return cached
+
+
+@_cache_by_filename
 def default_code_filter(code: CodeType) -> bool:
     """A CodeFilter to exclude stdlib and site-packages."""
     # Filter code without a source file
